@@ -58,7 +58,42 @@ type (
 		T     types.Type
 		Elems []*cpCell
 	}
+	// cpArr is an array value (the contents of an array cell).
+	cpArr struct {
+		T     types.Type
+		Elems []*cpCell
+	}
+	// cpMap is a map with known contents (a reference: copies share the object).
+	cpMap struct{ O *cpMapObj }
 )
+
+type cpMapObj struct {
+	T       types.Type
+	M       map[string]*cpMapEntry
+	Unknown bool // something the fold could not follow was done to it
+}
+
+type cpMapEntry struct{ K, V cpVal }
+
+// cpRType is the model of a reflect.Type value: what the methods the library
+// calls on it answer. Identity is the pointer.
+type cpRType struct {
+	ID      string
+	Kind    int64
+	Elem    *cpRType
+	Key     *cpRType
+	Name    string
+	PkgPath string
+	Fields  []cpRField
+	Size    int64
+}
+
+type cpRField struct {
+	Name, PkgPath, Tag string
+	Type               *cpRType
+	Offset             int64
+	Anonymous          bool
+}
 
 type cpCell struct {
 	V cpVal
@@ -114,6 +149,10 @@ func (e *cpEngine) fresh(hint string) cpUnk {
 
 // cpFold folds fn for args and returns every outcome, or ok=false when a
 // budget was exceeded or an instruction is outside what the fold understands.
+// cpMaxOutcomes bounds the number of outcomes of one fold (a rule that needs
+// more for a particular question raises it around its call).
+var cpMaxOutcomes = 96
+
 func cpFold(P *Program, fn *ssa.Function, args []cpVal) (outs []cpOutcome, ok bool, why string) {
 	outs, _, ok, why = cpFoldOpt(P, fn, args, nil)
 	return
@@ -123,7 +162,7 @@ func cpFold(P *Program, fn *ssa.Function, args []cpVal) (outs []cpOutcome, ok bo
 // are recorded like calls that leave the module); it also reports the
 // functions folded through.
 func cpFoldOpt(P *Program, fn *ssa.Function, args []cpVal, opaque func(*ssa.Function) bool) (outs []cpOutcome, visited map[*ssa.Function]bool, ok bool, why string) {
-	e := &cpEngine{P: P, MaxOut: 96, MaxSteps: 40000, MaxForks: 28, MaxDepth: 8, opaque: opaque, visited: map[*ssa.Function]bool{}}
+	e := &cpEngine{P: P, MaxOut: cpMaxOutcomes, MaxSteps: 40000, MaxForks: 28, MaxDepth: 8, opaque: opaque, visited: map[*ssa.Function]bool{}}
 	defer func() { visited = e.visited }()
 	e.pending = [][]bool{nil}
 	for len(e.pending) > 0 {
@@ -202,6 +241,12 @@ func cpCopy(v cpVal, memo map[*cpCell]*cpCell) cpVal {
 			n.Elems[i] = nc
 		}
 		return n
+	case cpArr:
+		n := cpArr{T: x.T, Elems: make([]*cpCell, len(x.Elems))}
+		for i, c := range x.Elems {
+			n.Elems[i] = &cpCell{V: cpCopy(c.V, memo), T: c.T}
+		}
+		return n
 	case cpTuple:
 		n := cpTuple{Vs: make([]cpVal, len(x.Vs))}
 		for i, y := range x.Vs {
@@ -223,6 +268,12 @@ func cpValueCopy(v cpVal) cpVal {
 		return n
 	case cpIface:
 		return cpIface{T: x.T, V: cpValueCopy(x.V)}
+	case cpArr:
+		n := cpArr{T: x.T, Elems: make([]*cpCell, len(x.Elems))}
+		for i, c := range x.Elems {
+			n.Elems[i] = &cpCell{V: cpValueCopy(c.V), T: c.T}
+		}
+		return n
 	}
 	return v
 }
@@ -245,6 +296,15 @@ func (e *cpEngine) zero(t types.Type) cpVal {
 		return e.fresh("zero")
 	case *types.Struct:
 		return cpStruct{T: t, F: map[int]*cpCell{}}
+	case *types.Array:
+		if u.Len() <= 64 {
+			a := cpArr{T: t, Elems: make([]*cpCell, u.Len())}
+			for i := range a.Elems {
+				a.Elems[i] = &cpCell{V: e.zero(u.Elem()), T: u.Elem()}
+			}
+			return a
+		}
+		return e.fresh("zero")
 	case *types.Pointer, *types.Slice, *types.Map, *types.Chan, *types.Interface, *types.Signature:
 		return cpNil{}
 	}
@@ -271,8 +331,14 @@ func (e *cpEngine) field(s cpStruct, i int) *cpCell {
 }
 
 type cpFrame struct {
-	fn  *ssa.Function
-	env map[ssa.Value]cpVal
+	fn     *ssa.Function
+	env    map[ssa.Value]cpVal
+	defers []cpDeferred
+}
+
+type cpDeferred struct {
+	instr *ssa.Defer
+	args  []cpVal // receiver first for an interface method call
 }
 
 func (e *cpEngine) get(fr *cpFrame, v ssa.Value) cpVal {
@@ -421,7 +487,7 @@ func (e *cpEngine) call(fn *ssa.Function, args []cpVal, depth int) []cpVal {
 				e.fail("step budget")
 			}
 			switch x := in.(type) {
-			case *ssa.DebugRef, *ssa.RunDefers:
+			case *ssa.DebugRef:
 			case *ssa.Return:
 				out := make([]cpVal, len(x.Results))
 				for i, r := range x.Results {
@@ -450,10 +516,28 @@ func (e *cpEngine) call(fn *ssa.Function, args []cpVal, depth int) []cpVal {
 				if p, ok := addr.(cpPtr); ok && p.C != nil {
 					p.C.V = cpValueCopy(e.get(fr, x.Val))
 				}
-			case *ssa.MapUpdate, *ssa.Send:
-			case *ssa.Go, *ssa.Defer:
+			case *ssa.MapUpdate:
+				e.mapUpdate(fr, x)
+			case *ssa.Send:
+			case *ssa.Defer:
+				// evaluated now, run at RunDefers
+				d := cpDeferred{instr: x}
+				cc := x.Common()
+				if cc.IsInvoke() {
+					d.args = append(d.args, e.get(fr, cc.Value))
+				}
+				for _, a := range cc.Args {
+					d.args = append(d.args, e.get(fr, a))
+				}
+				fr.defers = append(fr.defers, d)
+			case *ssa.RunDefers:
+				for i := len(fr.defers) - 1; i >= 0; i-- {
+					e.runDeferred(fr, fr.defers[i], depth)
+				}
+				fr.defers = nil
+			case *ssa.Go:
 				ci := in.(ssa.CallInstruction)
-				e.record(fr, ci, "deferred-or-go")
+				e.record(fr, ci, "go")
 			case ssa.Value:
 				fr.env[x] = e.eval(fr, x, depth)
 			default:
@@ -536,6 +620,9 @@ func (e *cpEngine) eval(fr *cpFrame, v ssa.Value, depth int) cpVal {
 			if s, ok := p.C.V.(cpStruct); ok {
 				return cpPtr{C: e.field(s, x.Field)}
 			}
+			if u, ok := p.C.V.(cpUnk); ok {
+				return cpPtr{C: &cpCell{V: cpUnk{ID: u.ID + "." + fieldName(x.X.Type(), x.Field)}}}
+			}
 		}
 		return cpPtr{C: &cpCell{V: e.fresh("fieldaddr")}}
 	case *ssa.Field:
@@ -543,17 +630,54 @@ func (e *cpEngine) eval(fr *cpFrame, v ssa.Value, depth int) cpVal {
 		if s, ok := base.(cpStruct); ok {
 			return cpValueCopy(e.field(s, x.Field).V)
 		}
+		if u, ok := base.(cpUnk); ok {
+			return cpUnk{ID: u.ID + "." + fieldNameT(x.X.Type(), x.Field)} // a part of that unknown: still nameable
+		}
 		return e.fresh("field")
 	case *ssa.IndexAddr:
-		if sl, ok := e.get(fr, x.X).(cpSlice); ok {
+		var elems []*cpCell
+		known := false
+		switch b := e.get(fr, x.X).(type) {
+		case cpSlice:
+			elems, known = b.Elems, true
+		case cpPtr:
+			if b.C != nil {
+				if a, ok := b.C.V.(cpArr); ok {
+					elems, known = a.Elems, true
+				}
+			}
+		}
+		if known {
 			if i, ok := e.get(fr, x.Index).(cpInt); ok {
-				if i.V < 0 || i.V >= int64(len(sl.Elems)) {
+				if i.V < 0 || i.V >= int64(len(elems)) {
 					e.fail("panic-instr")
 				}
-				return cpPtr{C: sl.Elems[i.V]}
+				return cpPtr{C: elems[i.V]}
 			}
 		}
 		return cpPtr{C: &cpCell{V: e.fresh("elem")}}
+	case *ssa.Slice:
+		return e.evalSlice(fr, x)
+	case *ssa.Index:
+		idx, isI := e.get(fr, x.Index).(cpInt)
+		switch b := e.get(fr, x.X).(type) {
+		case cpArr:
+			if isI && idx.V >= 0 && idx.V < int64(len(b.Elems)) {
+				return cpValueCopy(b.Elems[idx.V].V)
+			}
+		case cpStr:
+			if isI {
+				if idx.V < 0 || idx.V >= int64(len(b.V)) {
+					e.fail("panic-instr")
+				}
+				return cpInt{int64(b.V[idx.V])}
+			}
+		}
+		return e.fresh("index")
+	case *ssa.MakeMap:
+		return cpMap{O: &cpMapObj{T: x.Type(), M: map[string]*cpMapEntry{}}}
+	case *ssa.Lookup:
+		return e.evalLookup(fr, x)
 	case *ssa.MakeSlice:
 		if n, ok := e.get(fr, x.Len).(cpInt); ok && n.V >= 0 && n.V <= 64 {
 			et := x.Type().Underlying().(*types.Slice).Elem()
@@ -564,7 +688,7 @@ func (e *cpEngine) eval(fr *cpFrame, v ssa.Value, depth int) cpVal {
 			return sl
 		}
 		return e.resultOf(fr, v, "opaque")
-	case *ssa.Index, *ssa.Lookup, *ssa.Slice, *ssa.MakeMap, *ssa.MakeChan, *ssa.MakeClosure, *ssa.Range, *ssa.Next, *ssa.Select, *ssa.SliceToArrayPointer, *ssa.MultiConvert:
+	case *ssa.MakeChan, *ssa.MakeClosure, *ssa.Range, *ssa.Next, *ssa.Select, *ssa.SliceToArrayPointer, *ssa.MultiConvert:
 		return e.resultOf(fr, v, "opaque")
 	case *ssa.Extract:
 		t := e.get(fr, x.Tuple)
@@ -578,6 +702,9 @@ func (e *cpEngine) eval(fr *cpFrame, v ssa.Value, depth int) cpVal {
 		case token.MUL:
 			if p, ok := a.(cpPtr); ok && p.C != nil {
 				return cpValueCopy(p.C.V)
+			}
+			if u, ok := a.(cpUnk); ok && strings.HasPrefix(u.ID, "global:") {
+				return cpUnk{ID: "*" + u.ID} // what a package-level variable holds: unknown, but named
 			}
 			return e.fresh("load")
 		case token.NOT:
@@ -817,6 +944,14 @@ func (e *cpEngine) binop(x *ssa.BinOp, a, b cpVal) cpVal {
 			return e.linear(x.Op, b, av.V, x)
 		}
 	case cpStr:
+		if bu, isU := b.(cpUnk); isU {
+			switch x.Op {
+			case token.EQL:
+				return cpUnk{ID: "cmp:" + bu.ID + "==" + av.V}
+			case token.NEQ:
+				return cpUnk{ID: "!cmp:" + bu.ID + "==" + av.V}
+			}
+		}
 		if bv, ok := b.(cpStr); ok {
 			if x.Op == token.ADD {
 				return cpStr{av.V + bv.V}
@@ -873,11 +1008,27 @@ func (e *cpEngine) binop(x *ssa.BinOp, a, b cpVal) cpVal {
 			if r := cmp(0); r != nil {
 				return r
 			}
-		case cpPtr, cpIface, cpFn:
+		case cpPtr, cpIface, cpFn, *cpRType, cpMap, cpSlice:
 			_ = bv
 			if r := cmp(1); r != nil && (x.Op == token.EQL || x.Op == token.NEQ) {
 				return r
 			}
+		}
+	case *cpRType:
+		if x.Op == token.EQL || x.Op == token.NEQ {
+			switch bv := b.(type) {
+			case cpNil:
+				return cmp(1)
+			case *cpRType:
+				if av == bv {
+					return cmp(0)
+				}
+				return cmp(1)
+			}
+		}
+	case cpMap, cpSlice:
+		if _, ok := b.(cpNil); ok && (x.Op == token.EQL || x.Op == token.NEQ) {
+			return cmp(1)
 		}
 	case cpPtr, cpIface, cpFn:
 		if _, ok := b.(cpNil); ok && (x.Op == token.EQL || x.Op == token.NEQ) {
@@ -898,6 +1049,16 @@ func (e *cpEngine) binop(x *ssa.BinOp, a, b cpVal) cpVal {
 				return e.linear(x.Op, a, bv.V, x)
 			case token.SUB:
 				return e.linear(token.ADD, a, -bv.V, x)
+			}
+		}
+		if au, isU := a.(cpUnk); isU {
+			if bs, ok := b.(cpStr); ok {
+				switch x.Op {
+				case token.EQL:
+					return cpUnk{ID: "cmp:" + au.ID + "==" + bs.V}
+				case token.NEQ:
+					return cpUnk{ID: "!cmp:" + au.ID + "==" + bs.V}
+				}
 			}
 		}
 	}
@@ -929,17 +1090,37 @@ func (e *cpEngine) linear(op token.Token, u cpVal, k int64, x *ssa.BinOp) cpVal 
 func (e *cpEngine) evalCall(fr *cpFrame, x *ssa.Call, depth int) cpVal {
 	cc := x.Common()
 	if bi, ok := cc.Value.(*ssa.Builtin); ok {
-		if bi.Name() == "len" && len(cc.Args) == 1 {
-			switch s := e.get(fr, cc.Args[0]).(type) {
-			case cpStr:
-				return cpInt{int64(len(s.V))}
-			case cpSlice:
-				return cpInt{int64(len(s.Elems))}
-			}
+		args := make([]cpVal, len(cc.Args))
+		for i, a := range cc.Args {
+			args[i] = e.get(fr, a)
+		}
+		if r, ok := e.builtin(fr, bi.Name(), args, x.Type()); ok {
+			return r
 		}
 		return e.resultOf(fr, x, "builtin")
 	}
+	if cc.IsInvoke() {
+		// a method of reflect.Type on a modelled type
+		if rt, ok := e.get(fr, cc.Value).(*cpRType); ok {
+			args := make([]cpVal, len(cc.Args))
+			for i, a := range cc.Args {
+				args[i] = e.get(fr, a)
+			}
+			if r, ok := e.rtypeMethod(rt, cc.Method.Name(), args, x.Type()); ok {
+				return r
+			}
+		}
+	}
 	g := cc.StaticCallee()
+	if g != nil && !e.P.isModuleFunc(g) {
+		args := make([]cpVal, len(cc.Args))
+		for i, a := range cc.Args {
+			args[i] = e.get(fr, a)
+		}
+		if r, ok := e.external(qualName(g), args, x.Type()); ok {
+			return r
+		}
+	}
 	if g == nil && !cc.IsInvoke() {
 		// a call of a function value the fold knows
 		if f, ok := e.get(fr, cc.Value).(cpFn); ok {
@@ -967,7 +1148,9 @@ func (e *cpEngine) evalCall(fr *cpFrame, x *ssa.Call, depth int) cpVal {
 				known = true
 			}
 		}
-		if known || len(cc.Args) == 0 {
+		// with nothing known about the arguments only small helpers are worth folding (a constructor of a literal, a
+		// predicate): what they build around the unknowns is still structure
+		if known || len(cc.Args) == 0 || len(g.Blocks) <= 6 {
 			return e.finishCall(x, e.call(g, args, depth+1))
 		}
 	}
@@ -1053,4 +1236,33 @@ func cpStructUnknownExcept(t types.Type, fields map[string]cpVal) cpStruct {
 		}
 	}
 	return s
+}
+
+// runDeferred executes one deferred call at function exit: builtins and
+// module functions are folded, anything else is recorded.
+func (e *cpEngine) runDeferred(fr *cpFrame, d cpDeferred, depth int) {
+	cc := d.instr.Common()
+	if bi, ok := cc.Value.(*ssa.Builtin); ok {
+		e.builtin(fr, bi.Name(), d.args, nil)
+		return
+	}
+	if g := cc.StaticCallee(); g != nil && e.P.isModuleFunc(g) && g.Blocks != nil && depth < e.MaxDepth && (e.opaque == nil || !e.opaque(g)) {
+		known := len(d.args) == 0
+		for _, a := range d.args {
+			if cpKnown(a) {
+				known = true
+			}
+		}
+		if known {
+			e.call(g, d.args, depth+1)
+			return
+		}
+	}
+	name := "deferred"
+	if g := cc.StaticCallee(); g != nil {
+		name = qualName(g)
+	} else if cc.IsInvoke() {
+		name = "invoke:" + cc.Method.Name()
+	}
+	e.calls = append(e.calls, cpCall{Callee: name, Args: d.args, Instr: d.instr})
 }
